@@ -135,12 +135,48 @@ func c19GenRate(t *rapid.T) c19Rate {
 		k := rapid.Int64Range(1, 1000).Draw(t, "k")
 		c.Per, c.Text = k*u.ns, n+"/"+strconv.FormatInt(k, 10)+u.name
 	default: // compound / fractional notations
-		type form struct {
-			txt string
-			ns  int64
+		if rapid.Bool().Draw(t, "fixedform") {
+			type form struct {
+				txt string
+				ns  int64
+			}
+			f := rapid.SampledFrom([]form{{"1m30s", 90e9}, {"1.5ms", 1500000}, {"1h0m0s", 3600e9}, {"0.5s", 5e8}, {"2h45m", 9900e9}, {"1s500ms", 1500e6}, {"100µs", 1e5}, {"1.000001s", 1000001000}}).Draw(t, "form")
+			c.Per, c.Text = f.ns, n+"/"+f.txt
+			break
 		}
-		f := rapid.SampledFrom([]form{{"1m30s", 90e9}, {"1.5ms", 1500000}, {"1h0m0s", 3600e9}, {"0.5s", 5e8}, {"2h45m", 9900e9}, {"1s500ms", 1500e6}, {"100µs", 1e5}, {"1.000001s", 1000001000}}).Draw(t, "form")
-		c.Per, c.Text = f.ns, n+"/"+f.txt
+		// any duration text: 1..3 components, each digits[.digits]unit or .digits unit, value computed here
+		txt, total, exotic := "", int64(0), false
+		for i, nc := 0, rapid.IntRange(1, 3).Draw(t, "ncomp"); i < nc; i++ {
+			u := rapid.SampledFrom(c19Units).Draw(t, fmt.Sprintf("cu%d", i))
+			ip := int64(rapid.IntRange(0, 999).Draw(t, fmt.Sprintf("ci%d", i)))
+			frac, fracNS := "", int64(0)
+			switch {
+			case u.ns >= 60e9: // minutes, hours: quarters are whole seconds
+				q := rapid.IntRange(0, 3).Draw(t, fmt.Sprintf("cq%d", i))
+				frac, fracNS = []string{"", ".25", ".5", ".75"}[q], u.ns/4*int64(q)
+			case u.ns > 1:
+				maxd := len(strconv.FormatInt(u.ns, 10)) - 1 // digits that still denote whole nanoseconds
+				if nd := rapid.IntRange(0, maxd).Draw(t, fmt.Sprintf("cd%d", i)); nd > 0 {
+					pow := int64(1)
+					for k := 0; k < nd; k++ {
+						pow *= 10
+					}
+					d := rapid.Int64Range(0, pow-1).Draw(t, fmt.Sprintf("cf%d", i))
+					frac, fracNS = fmt.Sprintf(".%0*d", nd, d), d*(u.ns/pow)
+				}
+			}
+			is := strconv.FormatInt(ip, 10)
+			if ip == 0 && frac != "" && rapid.Bool().Draw(t, fmt.Sprintf("cb%d", i)) {
+				is, exotic = "", true // ".5s": no integer part
+			}
+			txt += is + frac + u.name
+			total += ip*u.ns + fracNS
+		}
+		if total == 0 {
+			txt, total = txt+"1s", 1e9
+		}
+		c.Per, c.Text = total, n+"/"+txt
+		c.MayReject = c.MayReject || exotic
 	}
 	return c
 }
